@@ -1,0 +1,178 @@
+//! Verification seam, compiled only with `--cfg mila_verif`.
+//!
+//! `std::collections::HashMap::new()` keys its hasher from an OS-seeded
+//! thread-local that cannot be set, so the iteration order of the tables in
+//! `BinArchive` differs from instance to instance and from process to process.
+//! This module provides a drop-in `HashMap` whose per-instance hash key is
+//! drawn from a thread-local stream that a simulator seeds, which makes the
+//! iteration order a pure function of that seed while keeping the property
+//! that matters: every new map gets a different, arbitrary order.
+//!
+//! With the cfg flag off this file is not compiled at all.
+
+use std::cell::Cell;
+use std::collections::hash_map;
+use std::fmt;
+use std::hash::{BuildHasher, Hash, Hasher};
+use std::iter::FromIterator;
+use std::ops::{Deref, DerefMut};
+
+thread_local! {
+    static STREAM: Cell<u64> = Cell::new(0x5EED_5EED_5EED_5EED);
+    static DRAWN: Cell<u64> = Cell::new(0);
+}
+
+/// Re-seed the per-thread hash key stream. Every map created afterwards on
+/// this thread draws its key from the stream, in creation order.
+pub fn set_hash_stream(seed: u64) {
+    STREAM.with(|s| s.set(seed));
+    DRAWN.with(|d| d.set(0));
+}
+
+/// Number of keys drawn since the last `set_hash_stream` (reach measure).
+pub fn hash_keys_drawn() -> u64 {
+    DRAWN.with(|d| d.get())
+}
+
+fn mix(mut z: u64) -> u64 {
+    z = (z ^ (z >> 30)).wrapping_mul(0xBF58_476D_1CE4_E5B9);
+    z = (z ^ (z >> 27)).wrapping_mul(0x94D0_49BB_1331_11EB);
+    z ^ (z >> 31)
+}
+
+fn next_key() -> u64 {
+    DRAWN.with(|d| d.set(d.get().wrapping_add(1)));
+    STREAM.with(|s| {
+        let next = s.get().wrapping_add(0x9E37_79B9_7F4A_7C15);
+        s.set(next);
+        mix(next)
+    })
+}
+
+#[derive(Clone, Debug)]
+pub struct SeededState {
+    key: u64,
+}
+
+impl Default for SeededState {
+    fn default() -> Self {
+        SeededState { key: next_key() }
+    }
+}
+
+impl BuildHasher for SeededState {
+    type Hasher = SeededHasher;
+
+    fn build_hasher(&self) -> SeededHasher {
+        SeededHasher { state: self.key }
+    }
+}
+
+pub struct SeededHasher {
+    state: u64,
+}
+
+impl Hasher for SeededHasher {
+    fn write(&mut self, bytes: &[u8]) {
+        for b in bytes {
+            self.state = (self.state ^ (*b as u64)).wrapping_mul(0x0000_0100_0000_01B3);
+        }
+        self.state = mix(self.state);
+    }
+
+    fn finish(&self) -> u64 {
+        mix(self.state)
+    }
+}
+
+pub struct HashMap<K, V>(hash_map::HashMap<K, V, SeededState>);
+
+impl<K, V> HashMap<K, V> {
+    pub fn new() -> Self {
+        HashMap(hash_map::HashMap::default())
+    }
+
+    pub fn with_capacity(capacity: usize) -> Self {
+        HashMap(hash_map::HashMap::with_capacity_and_hasher(
+            capacity,
+            SeededState::default(),
+        ))
+    }
+}
+
+impl<K, V> Default for HashMap<K, V> {
+    fn default() -> Self {
+        HashMap::new()
+    }
+}
+
+impl<K: Clone, V: Clone> Clone for HashMap<K, V> {
+    fn clone(&self) -> Self {
+        HashMap(self.0.clone())
+    }
+}
+
+impl<K: fmt::Debug, V: fmt::Debug> fmt::Debug for HashMap<K, V> {
+    fn fmt(&self, f: &mut fmt::Formatter<'_>) -> fmt::Result {
+        self.0.fmt(f)
+    }
+}
+
+impl<K: Eq + Hash, V: PartialEq> PartialEq for HashMap<K, V> {
+    fn eq(&self, other: &Self) -> bool {
+        self.0 == other.0
+    }
+}
+
+impl<K, V> Deref for HashMap<K, V> {
+    type Target = hash_map::HashMap<K, V, SeededState>;
+
+    fn deref(&self) -> &Self::Target {
+        &self.0
+    }
+}
+
+impl<K, V> DerefMut for HashMap<K, V> {
+    fn deref_mut(&mut self) -> &mut Self::Target {
+        &mut self.0
+    }
+}
+
+impl<K: Eq + Hash, V> FromIterator<(K, V)> for HashMap<K, V> {
+    fn from_iter<I: IntoIterator<Item = (K, V)>>(iter: I) -> Self {
+        HashMap(hash_map::HashMap::from_iter(iter))
+    }
+}
+
+impl<K: Eq + Hash, V> Extend<(K, V)> for HashMap<K, V> {
+    fn extend<I: IntoIterator<Item = (K, V)>>(&mut self, iter: I) {
+        self.0.extend(iter)
+    }
+}
+
+impl<K, V> IntoIterator for HashMap<K, V> {
+    type Item = (K, V);
+    type IntoIter = hash_map::IntoIter<K, V>;
+
+    fn into_iter(self) -> Self::IntoIter {
+        self.0.into_iter()
+    }
+}
+
+impl<'a, K, V> IntoIterator for &'a HashMap<K, V> {
+    type Item = (&'a K, &'a V);
+    type IntoIter = hash_map::Iter<'a, K, V>;
+
+    fn into_iter(self) -> Self::IntoIter {
+        self.0.iter()
+    }
+}
+
+impl<'a, K, V> IntoIterator for &'a mut HashMap<K, V> {
+    type Item = (&'a K, &'a mut V);
+    type IntoIter = hash_map::IterMut<'a, K, V>;
+
+    fn into_iter(self) -> Self::IntoIter {
+        self.0.iter_mut()
+    }
+}
